@@ -39,7 +39,7 @@ structure TimInv (tm : Timer) (ths : List (Nat × Th)) : Prop where
   t3 : ∀ t th, thFind ths t = some th → th.ts = .timing → t ∈ tm.elems.map (·.1)
 
 structure TabInv (s : State) : Prop where
-  mir : Mirror s.notify s.waitFor
+  mir : TblMirror s.notify s.waitFor
   aN : ∀ o n x, x ∈ Tbl.getD s.notify (o, n) → s.alive o = true ∧ aliveTh s.threads x = true
 
 structure LinkInv (C W : List Nat) (top : Option Nat) (s : State) : Prop where
